@@ -372,6 +372,7 @@ static void case_shift(Tape &t, Ctx &cx)
         break; }
     case 2: case 3: {
         unsigned cn = n ? t.u8() % (n + 1) : 0; // cache not longer than the block (the unambiguous range)
+        if (op == 3 && t.u8() % 4 == 0) { cn = n + 1 + t.u8() % 5; } // push_back_ of a longer cache = pushing its elements one by one: the last n remain
         std::vector<a_real> c(cn);
         for (unsigned i = 0; i < cn; ++i) { c[i] = a_real(-1 - int(i)); }
         a_real *cp = blk(c);
@@ -387,8 +388,9 @@ static void case_shift(Tape &t, Ctx &cx)
         else
         {
             a_real_push_back_(p, n, cp, cn);
-            std::vector<a_real> w(v.begin() + cn, v.end());
+            std::vector<a_real> w(v);
             w.insert(w.end(), c.begin(), c.end());
+            w.erase(w.begin(), w.end() - n); // the n most recent elements, oldest first
             want = w;
             name = "a_real_push_back_";
         }
